@@ -216,7 +216,7 @@ def run(ctx):
                 local_q.setdefault(n.targets[0].id, []).append(n.value)
         loops = [n for n in ast.walk(wf) if isinstance(n, ast.For)]
         if not loops:
-            raise AnalysisError(f"{wn}: no loop over a query (unknown idiom)", wn)
+            continue  # nothing is walked here: missing edges are C23.3's obligation
         for lp in loops:
             it = lp.iter
             if not (isinstance(it, ast.Call) and call_name(it) == "filter_in" and len(it.args) == 3):
